@@ -11,8 +11,10 @@ CONSTANTS EarlyMs,   \* tolerance for "before its scheduled time"
 VARIABLES n, ordered, running, committed, subs, begins, cancelled, pend, schedAt, prioQ, normQ, holder,
           mdMs,     \* max delay of the tasks in milliseconds
           qsubT,    \* [task -> time of its last Queue/QueuePrioritized/StartASAP call, -1 = none since the last run]
-          lastKind  \* [task -> kind of its last submission]
-avars == <<n, ordered, running, committed, subs, begins, cancelled, pend, schedAt, prioQ, normQ, holder, mdMs, qsubT, lastKind>>
+          lastKind, \* [task -> kind of its last submission]
+          rep,      \* [task -> repeat interval in milliseconds, 0 = not repeating]
+          eaSet     \* [task -> the task was scheduled or queued since its last start decision]
+avars == <<n, ordered, running, committed, subs, begins, cancelled, pend, schedAt, prioQ, normQ, holder, mdMs, qsubT, lastKind, rep, eaSet>>
 
 T == 1..n
 F(v) == [k \in 1..n |-> v]
@@ -21,7 +23,7 @@ InSeq(q, k) == \E i \in 1..Len(q) : q[i] = k
 
 AbsInit == /\ n = 0 /\ ordered = FALSE /\ running = <<>> /\ committed = <<>> /\ subs = <<>> /\ begins = <<>>
            /\ cancelled = <<>> /\ pend = <<>> /\ schedAt = <<>> /\ prioQ = <<>> /\ normQ = <<>> /\ holder = 0
-           /\ mdMs = 0 /\ qsubT = <<>> /\ lastKind = <<>>
+           /\ mdMs = 0 /\ qsubT = <<>> /\ lastKind = <<>> /\ rep = <<>> /\ eaSet = <<>>
 
 Reset(k, ord, md) ==
     /\ n' = k /\ ordered' = ord
@@ -30,10 +32,16 @@ Reset(k, ord, md) ==
     /\ cancelled' = [i \in 1..k |-> FALSE] /\ pend' = [i \in 1..k |-> "none"] /\ schedAt' = [i \in 1..k |-> 0]
     /\ prioQ' = <<>> /\ normQ' = <<>> /\ holder' = 0
     /\ mdMs' = md /\ qsubT' = [i \in 1..k |-> -1] /\ lastKind' = [i \in 1..k |-> "none"]
+    /\ rep' = [i \in 1..k |-> 0] /\ eaSet' = [i \in 1..k |-> FALSE]
 
 \* a submission call begins (logged before the call, so that a run it causes is logged after it)
-Sub(k, kind, at, t) ==
+\* kind "repeat" (iv = interval): Repeat(interval) schedules the first execution one interval from now and makes the
+\* task repeating; for every other kind iv is 0
+Sub(k, kind0, at, t, iv) ==
+    LET kind == IF kind0 = "repeat" THEN "schedule" ELSE kind0 IN
     /\ k \in T
+    /\ rep' = IF kind0 = "repeat" THEN [rep EXCEPT ![k] = iv] ELSE rep
+    /\ eaSet' = [eaSet EXCEPT ![k] = TRUE]
     /\ qsubT' = IF kind # "schedule" /\ ~cancelled[k] THEN [qsubT EXCEPT ![k] = t] ELSE qsubT
     /\ lastKind' = [lastKind EXCEPT ![k] = kind]
     /\ mdMs' = mdMs
@@ -54,13 +62,18 @@ Unsched(k) ==
     /\ k \in T /\ pend' = [pend EXCEPT ![k] = "none"]
     /\ prioQ' = Remove(prioQ, k) /\ normQ' = Remove(normQ, k)
     /\ qsubT' = [qsubT EXCEPT ![k] = -1] /\ lastKind' = [lastKind EXCEPT ![k] = "none"]
-    /\ UNCHANGED <<n, ordered, running, committed, subs, begins, cancelled, schedAt, holder, mdMs>>
+    /\ eaSet' = [eaSet EXCEPT ![k] = FALSE]
+    /\ UNCHANGED <<n, ordered, running, committed, subs, begins, cancelled, schedAt, holder, mdMs, rep>>
+
+\* Repeat(0) returned: no further repetitions; what is scheduled stays scheduled
+RepOff(k) == k \in T /\ rep' = [rep EXCEPT ![k] = 0]
+             /\ UNCHANGED <<n, ordered, running, committed, subs, begins, cancelled, pend, schedAt, prioQ, normQ, holder, mdMs, qsubT, lastKind, eaSet>>
 
 CancelRet(k) ==
     /\ k \in T /\ cancelled' = [cancelled EXCEPT ![k] = TRUE] /\ pend' = [pend EXCEPT ![k] = "none"]
     /\ holder' = IF holder = k THEN 0 ELSE holder
     /\ prioQ' = Remove(prioQ, k) /\ normQ' = Remove(normQ, k)      \* a cancelled task is skipped by the queue
-    /\ UNCHANGED <<n, ordered, running, committed, subs, begins, schedAt, mdMs, qsubT, lastKind>>
+    /\ UNCHANGED <<n, ordered, running, committed, subs, begins, schedAt, mdMs, qsubT, lastKind, rep, eaSet>>
 
 \* a handler decided to start task k (linearization point of the start: state checks passed under the task lock)
 Checked(k, t, by) ==
@@ -80,7 +93,8 @@ Checked(k, t, by) ==
           /\ k = (IF prioQ # <<>> THEN Head(prioQ) ELSE IF normQ # <<>> THEN Head(normQ) ELSE 0)
     /\ holder' = IF ordered THEN k ELSE holder
     /\ prioQ' = Remove(prioQ, k) /\ normQ' = Remove(normQ, k)
-    /\ UNCHANGED <<n, ordered, running, subs, begins, cancelled, schedAt, mdMs, lastKind>>
+    /\ eaSet' = [eaSet EXCEPT ![k] = FALSE]     \* the execution time is cleared together with the start decision
+    /\ UNCHANGED <<n, ordered, running, subs, begins, cancelled, schedAt, mdMs, lastKind, rep>>
 
 Begin(k, t) ==
     /\ k \in T /\ ~running[k]                               \* never concurrently with itself
@@ -89,12 +103,20 @@ Begin(k, t) ==
     /\ begins' = [begins EXCEPT ![k] = @ + 1]
     \* this run comes after every submission so far - except a schedule entry whose time has not come yet
     /\ pend' = [pend EXCEPT ![k] = IF @ = "sched" /\ schedAt[k] > t + EarlyMs THEN "sched" ELSE "none"]
-    /\ UNCHANGED <<n, ordered, subs, cancelled, schedAt, prioQ, normQ, holder, mdMs, qsubT, lastKind>>
+    /\ UNCHANGED <<n, ordered, subs, cancelled, schedAt, prioQ, normQ, holder, mdMs, qsubT, lastKind, rep, eaSet>>
 
-End(k) ==
+\* the function returned at time t.  A repeating task that nobody scheduled or queued since its start was decided is
+\* thereby scheduled again one interval later (an implicit submission; the code computes the time slightly after t,
+\* so t + interval is a lower bound of the scheduled time: sound for "not before its scheduled time")
+End(k, t) ==
     /\ k \in T /\ running[k] /\ running' = [running EXCEPT ![k] = FALSE]
     /\ holder' = IF holder = k THEN 0 ELSE holder
-    /\ UNCHANGED <<n, ordered, committed, subs, begins, cancelled, pend, schedAt, prioQ, normQ, mdMs, qsubT, lastKind>>
+    /\ IF rep[k] > 0 /\ ~cancelled[k] /\ ~eaSet[k]
+       THEN /\ subs' = [subs EXCEPT ![k] = @ + 1] /\ pend' = [pend EXCEPT ![k] = "sched"]
+            /\ schedAt' = [schedAt EXCEPT ![k] = t + rep[k]] /\ lastKind' = [lastKind EXCEPT ![k] = "schedule"]
+            /\ eaSet' = [eaSet EXCEPT ![k] = TRUE]
+       ELSE UNCHANGED <<subs, pend, schedAt, lastKind, eaSet>>
+    /\ UNCHANGED <<n, ordered, committed, begins, cancelled, prioQ, normQ, mdMs, qsubT, rep>>
 
 \* quiescence: nothing that was submitted (and whose time has come) and not cancelled is still waiting
 Final(t) ==
